@@ -198,3 +198,13 @@ def premature(trace, idx, e, deliver_ev="CbEmit", done_ev="ConsumerDone", sync=F
         if x["ev"] == done_ev and started and (x.get("e") in (None, e) or e in (x.get("es") or [])):
             finished = True
     return not (started and finished)
+
+
+def seconds(interval):
+    """what an interval given as a number or as a pandas-style string means, computed independently of streamz"""
+    if isinstance(interval, (int, float)):
+        return int(interval)
+    units = {"ms": 0.001, "s": 1, "min": 60, "h": 3600, "d": 86400, "day": 86400, "days": 86400, "w": 604800}
+    import re as _re
+    m = _re.fullmatch(r"\s*(\d+)\s*([a-zA-Z]+)\s*", interval)
+    return int(int(m.group(1)) * units[m.group(2).lower()])
